@@ -77,8 +77,9 @@ def project_st(draw):
         name = posixpath.join(d, base) if d else base
         if any(x["name"] == name for x in docs):
             name = posixpath.join(d, f"doc{i}") if d else f"doc{i}"
+        # (labels are linked as their author wrote them, capitals included)
         docs.append({"name": name, "title": f"Title D{i}", "heads": heads,
-                     "label": f"lab-d{i}", "label_head": draw(st.integers(0, len(heads) - 1))})
+                     "label": f"Lab-D{i}" if i % 2 else f"lab-d{i}", "label_head": draw(st.integers(0, len(heads) - 1))})
     files = []
     for j in range(draw(st.integers(1, 3))):
         d = draw(st.sampled_from(DIRS))
@@ -167,10 +168,11 @@ def build_files(case):
         else:
             dest = f"#nosuchlabel{k}"
             rec.update(expect="missing", names=[f"nosuchlabel{k}"])
+        # (a text-less link has two spellings: the autolink '<scheme:dest>' and the bracket form '[](scheme:dest)')
         if kind in ("project", "project_anchor"):
-            md = f"<project:{dest}>" if lk["text"] == "empty" else f"[{txt}](project:{dest})"
+            md = (f"<project:{dest}>" if k % 2 else f"[](project:{dest})") if lk["text"] == "empty" else f"[{txt}](project:{dest})"
         elif kind == "path":
-            md = f"<path:{dest}>" if lk["text"] == "empty" else f"[{txt}](path:{dest})"
+            md = (f"<path:{dest}>" if k % 2 else f"[](path:{dest})") if lk["text"] == "empty" else f"[{txt}](path:{dest})"
         else:
             md = f"[{txt}]({dest})"
         rec["dest"] = dest
@@ -333,9 +335,9 @@ def sub_each(acc, shard, nshards, tier, seed):
     """A fixed 9-document tree (root, a/, a/b/c/, d/e/; two documents named like a directory beside them; two base names occur in two directories, one title three times): every link kind x path style x text form from every source
     document to a target in another directory (exhaustive over the spelling table)."""
     docs = [{"name": "doc0", "title": "Title D0", "heads": ["Section one D0", "Common heading", "Common heading", "Common heading"], "label": "lab-d0", "label_head": 1},
-            {"name": "a/doc1", "title": "Title D1", "heads": ["Section one D1", "Section one D1", "Section one D1"], "label": "lab-d1", "label_head": 1},
+            {"name": "a/doc1", "title": "Title D1", "heads": ["Section one D1", "Section one D1", "Section one D1"], "label": "Lab-D1", "label_head": 1},
             {"name": "a/doc0", "title": "Title A0", "heads": ["Section one A0", "Other A0"], "label": "lab-a0", "label_head": 0},
-            {"name": "d/e/doc1", "title": "Title E1", "heads": ["Section one E1", "Other E1"], "label": "lab-e1", "label_head": 1},
+            {"name": "d/e/doc1", "title": "Title E1", "heads": ["Section one E1", "Other E1"], "label": "Setup-Guide-E1", "label_head": 1},
             {"name": "a/b/c/doc2", "title": "Title D2", "heads": ["Section one D2", "Other D2", "Common heading"], "label": "lab-d2", "label_head": 0},
             {"name": "d/e/doc3", "title": "Title D3", "heads": ["Common heading", "Third D3"], "label": "lab-d3", "label_head": 0},
             {"name": "a/doc4", "title": "Title D4", "heads": ["Section one D4", "Other D4"], "label": "lab-d4", "label_head": 1},
